@@ -104,8 +104,19 @@ func runC14(p *Program, r *Report) {
 	// ValidatePolicyDocument reaches the validators
 	vf := p.Func("auth.ValidatePolicyDocument")
 	reach := staticCallees(p, vf)
-	for _, want := range []string{"(auth.BucketPolicyAccessType).Validate", "(auth.Principals).Validate", "(auth.Resources).Validate", "(auth.Action).IsValid", "(auth.Action).IsObjectAction", "(auth.Resources).ContainsObjectPattern", "(auth.Resources).ContainsBucketPattern", "auth.isValidResource"} {
+	for _, want := range []string{"(auth.BucketPolicyAccessType).Validate", "(auth.Principals).Validate", "(auth.Resources).Validate", "(auth.Action).IsValid", "(auth.Action).IsObjectAction", "(auth.Resources).ContainsObjectPattern", "(auth.Resources).ContainsBucketPattern"} {
 		r.Check(reach[want], "R-C14-2", "ValidatePolicyDocument=>"+want, p.Pos(vf.Pos()), "reached", "ValidatePolicyDocument no longer (transitively) calls "+want)
+	}
+	// the resource syntax check, by role: some function on the way tests the ARN prefix (whatever it is called)
+	{
+		arn, _ := pkgConstString(p, "auth", "ResourceArnPrefix")
+		okArn := false
+		for _, g := range p.FuncsIn("auth") {
+			if reach[fnName(g)] && arn != "" && mentions(g, arn)[arn] {
+				okArn = true
+			}
+		}
+		r.Check(okArn, "R-C14-2", "ValidatePolicyDocument=>auth.isValidResource", p.Pos(vf.Pos()), "the resource ARN syntax check is reached", "ValidatePolicyDocument no longer (transitively) reaches a check of the resource ARN prefix")
 	}
 	// failures are not swallowed along the chain
 	chain := map[string][]string{
@@ -304,32 +315,47 @@ func c14Eval(p *Program, r *Report) {
 	r.Check(!bad, "R-C14-3", fnName(vb)+"/nil-only-if-allowed", p.Pos(vb.Pos()), "nil only on isAllowed true", "VerifyBucketPolicy returns nil without isAllowed being true")
 	// and the arguments are the caller/action/resource of this request
 	for _, c := range callsTo(vb, "(*auth.BucketPolicy).isAllowed") {
-		a := callArgs(c)
-		want := []string{"access", "action"}
-		for i, w := range want {
+		// the request's values reach isAllowed as arguments or as the fields of one struct argument
+		var vals []ssa.Value
+		for _, a := range callArgs(c) {
+			if fs, _ := litFields(a); len(fs) > 0 {
+				for _, vs := range fs {
+					vals = append(vals, vs...)
+				}
+				continue
+			}
+			vals = append(vals, a)
+		}
+		rootedAt := func(v ssa.Value, name string) bool {
+			for _, rt := range terminalRoots(Origins(v, nil)) {
+				if rt.Kind == "param" && rt.Desc == name {
+					return true
+				}
+			}
+			return false
+		}
+		for _, w := range []string{"access", "action"} {
 			ok := false
-			idx := []int{0, 1}[i]
-			for _, rt := range terminalRoots(Origins(a[idx], nil)) {
-				if rt.Kind == "param" && rt.Desc == w {
+			for _, v := range vals {
+				if rootedAt(v, w) && !rootedAt(v, "bucket") {
 					ok = true
 				}
 			}
 			r.Check(ok, "R-C14-3", fnName(vb)+"/isAllowed.arg:"+w, p.Pos(c.Pos()), "parameter "+w, "isAllowed is not evaluated for VerifyBucketPolicy's "+w+" parameter")
 		}
-		rs := terminalRoots(Origins(a[2], nil))
-		hasB, hasO := false, false
-		for _, rt := range rs {
-			if rt.Kind == "param" && rt.Desc == "bucket" {
-				hasB = true
-			}
-			if rt.Kind == "param" && rt.Desc == "object" {
-				hasO = true
+		var resArg ssa.Value
+		for _, v := range vals {
+			if rootedAt(v, "bucket") && rootedAt(v, "object") {
+				resArg = v
 			}
 		}
-		r.Check(hasB && hasO, "R-C14-3", fnName(vb)+"/isAllowed.arg:resource", p.Pos(c.Pos()), "resource built from bucket and object", "the resource string is not built from both the bucket and the object parameters")
+		r.Check(resArg != nil, "R-C14-3", fnName(vb)+"/isAllowed.arg:resource", p.Pos(c.Pos()), "resource built from bucket and object", "the resource string is not built from both the bucket and the object parameters")
+		if resArg == nil {
+			continue
+		}
 		// resource names are opaque strings: built by plain concatenation, never normalised
 		norm := ""
-		for _, rt := range Origins(a[2], nil) {
+		for _, rt := range Origins(resArg, nil) {
 			if rt.Kind == "via" || rt.Kind == "call" {
 				switch rt.Desc {
 				case "path.Join", "path.Clean", "path/filepath.Join", "path/filepath.Clean", "strings.TrimSuffix", "strings.TrimPrefix", "strings.Trim", "strings.TrimRight", "strings.TrimLeft", "strings.ToLower", "strings.ToUpper", "strings.ReplaceAll", "net/url.PathUnescape", "net/url.QueryUnescape":
